@@ -117,6 +117,7 @@ fn cfgs_for(prop: &str, n: usize) -> Vec<RunCfg> {
                             yields: vec![0; n],
                             abort_after: None,
                             instant: vec![],
+                            coop: false,
                         });
                     }
                 }
